@@ -498,6 +498,9 @@ func (e ErrClass) String() string { return [...]string{"ok", "conflict", "not-fo
 type Outcome struct {
 	Err      ErrClass
 	DontCare string
+	// Where says at which level the failure condition arose: "entry-level"
+	// (directly at the entry point) or "below-list-entry".
+	Where string
 }
 
 // clearOtherCases enforces choice exclusivity: before data for schema node c
@@ -650,6 +653,9 @@ func MergeList(dst, src *ListT, st Strategy, out *Outcome) {
 		}
 		MergeTree(de, se, below, created, out)
 		if out.Err != OK {
+			if out.Where == "" {
+				out.Where = "below-list-entry"
+			}
 			return
 		}
 	}
@@ -825,4 +831,166 @@ func optS(v string, ok bool) string {
 		return "<unset>"
 	}
 	return fmt.Sprintf("%q", v)
+}
+
+// SetAt replaces what the path addresses by the given subtree/list (used to
+// build a source tree that holds exactly the payload at the entry point).
+func (t *Tree) SetAt(p Path, sub *Tree, l *ListT) bool {
+	if len(p) == 0 {
+		if sub == nil {
+			return false
+		}
+		*t = *sub.Clone()
+		return true
+	}
+	loc, ok := t.Resolve(p[:len(p)-1])
+	if !ok || loc.Tree == nil {
+		return false
+	}
+	last := p[len(p)-1]
+	s := loc.Tree.S.Child(last.Name)
+	if s == nil {
+		return false
+	}
+	switch {
+	case s.Kind == schema.Container && sub != nil:
+		loc.Tree.Cont[last.Name] = sub.Clone()
+	case s.Kind == schema.List && last.Key == nil && l != nil:
+		loc.Tree.List[last.Name] = l.Clone()
+	case s.Kind == schema.List && last.Key != nil && sub != nil:
+		lst := loc.Tree.List[last.Name]
+		if lst == nil {
+			lst = &ListT{S: s}
+			loc.Tree.List[last.Name] = lst
+		}
+		if i, _ := lst.Find(last.Key); i >= 0 {
+			lst.Entries[i] = sub.Clone()
+		} else {
+			lst.Entries = append(lst.Entries, sub.Clone())
+		}
+	default:
+		return false
+	}
+	return true
+}
+
+// Without returns a clone with the addressed node removed (the complement of
+// an operation's footprint).
+func (t *Tree) Without(p Path) *Tree {
+	c := t.Clone()
+	if len(p) == 0 {
+		return New(t.S)
+	}
+	c.Delete(p)
+	return c
+}
+
+// DropEmptyLists removes lists without entries (present-but-empty and absent
+// are not distinguished by every store).
+func (t *Tree) DropEmptyLists() *Tree {
+	for n, l := range t.List {
+		if len(l.Entries) == 0 {
+			delete(t.List, n)
+			continue
+		}
+		for _, e := range l.Entries {
+			e.DropEmptyLists()
+		}
+	}
+	for _, c := range t.Cont {
+		c.DropEmptyLists()
+	}
+	return t
+}
+
+// OldOrNew checks that every leaf of got holds the value it has in a or in b
+// at the same place (entries matched by key), and that every list entry's key
+// occurs in a or b. It returns a description of the first offender.
+func OldOrNew(got, a, b *Tree, at string) string {
+	pick := func(t *Tree, f func(*Tree) bool) bool { return t != nil && f(t) }
+	for _, c := range got.S.DataChildren() {
+		p := at + "/" + c.Name
+		switch c.Kind {
+		case schema.Leaf:
+			v, ok := got.Leaf[c.Name]
+			if !ok {
+				continue
+			}
+			okA := pick(a, func(t *Tree) bool { x, h := t.Leaf[c.Name]; return h && x == v })
+			okB := pick(b, func(t *Tree) bool { x, h := t.Leaf[c.Name]; return h && x == v })
+			if !okA && !okB && v != c.Default {
+				return fmt.Sprintf("%s holds %q which is neither the old nor the new value", p, v)
+			}
+		case schema.LeafList:
+			v, ok := got.LL[c.Name]
+			if !ok {
+				continue
+			}
+			j := strings.Join(v, "\x00")
+			okA := pick(a, func(t *Tree) bool { x, h := t.LL[c.Name]; return h && strings.Join(x, "\x00") == j })
+			okB := pick(b, func(t *Tree) bool { x, h := t.LL[c.Name]; return h && strings.Join(x, "\x00") == j })
+			if !okA && !okB {
+				return fmt.Sprintf("%s holds %v which is neither the old nor the new value", p, v)
+			}
+		case schema.Container:
+			g, ok := got.Cont[c.Name]
+			if !ok {
+				continue
+			}
+			var ca, cb *Tree
+			if a != nil {
+				ca = a.Cont[c.Name]
+			}
+			if b != nil {
+				cb = b.Cont[c.Name]
+			}
+			if ca == nil && cb == nil {
+				if !g.Empty() {
+					return fmt.Sprintf("%s exists with content in neither the old nor the new tree", p)
+				}
+				continue
+			}
+			if d := OldOrNew(g, ca, cb, p); d != "" {
+				return d
+			}
+		case schema.List:
+			g, ok := got.List[c.Name]
+			if !ok {
+				continue
+			}
+			var la, lb *ListT
+			if a != nil {
+				la = a.List[c.Name]
+			}
+			if b != nil {
+				lb = b.List[c.Name]
+			}
+			for _, e := range g.Entries {
+				var ea, eb *Tree
+				if la != nil {
+					_, ea = la.Find(e.Key())
+				}
+				if lb != nil {
+					_, eb = lb.Find(e.Key())
+				}
+				if ea == nil && eb == nil {
+					// an entry whose key leaves were not (all) written yet
+					complete := true
+					for _, k := range c.Keys {
+						if _, h := e.Leaf[k]; !h {
+							complete = false
+						}
+					}
+					if complete {
+						return fmt.Sprintf("%s holds an entry with key %v that is in neither the old nor the new tree", p, e.Key())
+					}
+					continue
+				}
+				if d := OldOrNew(e, ea, eb, p+"="+strings.Join(e.Key(), ",")); d != "" {
+					return d
+				}
+			}
+		}
+	}
+	return ""
 }
